@@ -224,7 +224,7 @@ class Sensitivity:
         """
         A name for each of the perturb priors
         """
-        for path, _ in self.perturb_model.prior_tuples:
+        for path, _ in self.perturb_model.prior_tuples_ordered_by_id:
             yield path
 
     @property
@@ -236,7 +236,9 @@ class Sensitivity:
         """
         for list_ in self._lists:
             strings = list()
-            for value, prior_tuple in zip(list_, self.perturb_model.prior_tuples):
+            for value, prior_tuple in zip(
+                list_, self.perturb_model.prior_tuples_ordered_by_id
+            ):
                 path, prior = prior_tuple
                 value = prior.value_for(value)
                 strings.append(f"{path}_{value}")
